@@ -2,7 +2,6 @@ package main
 
 import (
 	"fmt"
-	"go/token"
 	"go/types"
 	"sort"
 	"strings"
@@ -18,12 +17,13 @@ type codecInfo struct {
 	nt          *types.Named
 	enc, dec    *ssa.Function
 	reader      *ssa.Function
-	encSeq      []string
+	encExpr     string // canonical encoder result, "" if undecided
+	encWhy      string
 	encDoubles  bool
-	decGuardsOK bool
-	decGuardWhy string
-	decExpr     string
+	decBad      string // first scenario whose result deviates
+	decWhy      string // undecided reason
 	decUndouble bool
+	decRuns     int
 	readerPeeks bool
 }
 
@@ -33,91 +33,126 @@ func (c *Ctx) quoteStates() []*types.Named {
 	return ns
 }
 
+// codecHooks: meaning of the string operations the codecs use, over symbolic strings.
+func (c *Ctx) codecHooks(ai *absInterp, builder *[]aiVal) {
+	ai.cmp = func(a, b aiVal) (bool, bool) {
+		if a.kind == "sym" && b.kind == "sym" {
+			return a.s == b.s, true
+		}
+		return false, false
+	}
+	ai.inline = func(g *ssa.Function) bool { return true }
+	ai.call = func(ai *absInterp, call *ssa.Call) (aiVal, bool) {
+		cc := call.Common()
+		f := calleeObj(cc)
+		if f == nil || f.Pkg() == nil || f.Pkg().Path() != "strings" {
+			return aiVal{}, false
+		}
+		if recvNamed(f) == "Builder" {
+			switch f.Name() {
+			case "WriteRune", "WriteString":
+				*builder = append(*builder, ai.get(cc.Args[1]))
+				return aiUnknown(), true
+			case "String":
+				return aiCat(*builder...), true
+			}
+			return aiVal{}, false
+		}
+		if f.Name() == "ReplaceAll" && len(cc.Args) == 3 {
+			return aiSym("replaceAll(" + aiRender(ai.get(cc.Args[0])) + "," + aiRender(ai.get(cc.Args[1])) + "," + aiRender(ai.get(cc.Args[2])) + ")"), true
+		}
+		return aiVal{}, false
+	}
+}
+
 func (c *Ctx) codecOf(nt *types.Named) *codecInfo {
 	ci := &codecInfo{nt: nt, enc: c.methodOf(nt, "EncodeString", false), dec: c.methodOf(nt, "DecodeString", false), reader: c.methodOf(nt, "NextToken", false)}
 	if ci.enc == nil || ci.dec == nil || ci.reader == nil {
 		panic(anchorError("quote state " + nt.Obj().Name() + " lacks Encode/Decode/NextToken"))
 	}
-	ex := c.newExpr(ci.enc)
-	for _, b := range ci.enc.Blocks {
-		for _, in := range b.Instrs {
-			call, ok := in.(*ssa.Call)
-			if !ok {
-				continue
-			}
-			f := calleeObj(call.Common())
-			if f == nil || f.Pkg() == nil || f.Pkg().Path() != "strings" || recvNamed(f) != "Builder" {
-				continue
-			}
-			switch f.Name() {
-			case "WriteRune", "WriteString":
-				ci.encSeq = append(ci.encSeq, f.Name()+"("+ex.str(call.Call.Args[1])+")")
-			}
+	// encoder: one abstract run over a symbolic value and quote
+	{
+		var builder []aiVal
+		ai := &absInterp{c: c, fn: ci.enc, env: map[ssa.Value]aiVal{}}
+		ai.env[ci.enc.Params[1]] = aiSym("value")
+		ai.env[ci.enc.Params[2]] = aiSym("q")
+		c.codecHooks(ai, &builder)
+		out := ai.run(ci.enc.Blocks[0], nil, 0)
+		switch {
+		case out.kind != "return" || len(out.ret) != 1:
+			ci.encWhy = "EncodeString: " + out.why
+		default:
+			ci.encExpr = aiRender(out.ret[0])
+			ci.encDoubles = strings.Contains(ci.encExpr, "replaceAll(")
 		}
 	}
-	for _, s := range ci.encSeq {
-		if strings.Contains(s, "strings.ReplaceAll") {
-			ci.encDoubles = true
-		}
-	}
-	// decoder
-	dx := c.newExpr(ci.dec)
-	for _, ret := range returnsOf(ci.dec) {
-		for _, leaf := range phiLeaves(ret.Results[0]) {
-			if leaf == ssa.Value(ci.dec.Params[1]) {
-				continue
-			}
-			ci.decExpr = dx.str(leaf)
-			if strings.HasPrefix(ci.decExpr, "strings.ReplaceAll") {
-				ci.decUndouble = true
-			}
-			// guards on the decoded path
-			var blk *ssa.BasicBlock
-			if in, ok := leaf.(ssa.Instruction); ok {
-				blk = in.Block()
-			}
-			if blk == nil {
-				continue
-			}
-			lenOK, firstOK, lastOK := false, false, false
-			isRunes := func(v ssa.Value) bool {
-				cv, ok := v.(*ssa.Convert)
-				return ok && cv.X == ssa.Value(ci.dec.Params[1])
-			}
-			for _, g := range guardsAt(blk) {
-				cond, truth := g.atom()
-				bo, ok := cond.(*ssa.BinOp)
-				if !ok || !truth {
+	// decoder: abstract runs over texts of 0..4 runes whose first / last rune is or is not the quote
+	for n := 0; n <= 4; n++ {
+		for _, firstQ := range []bool{false, true} {
+			for _, lastQ := range []bool{false, true} {
+				if n == 0 && (firstQ || lastQ) {
 					continue
 				}
-				if call, ok := bo.X.(*ssa.Call); ok {
-					if bi, ok := call.Call.Value.(*ssa.Builtin); ok && bi.Name() == "len" && isRunes(call.Call.Args[0]) {
-						if k, isK := constInt(bo.Y); isK && ((bo.Op == token.GEQ && k == 2) || (bo.Op == token.GTR && k == 1)) {
-							lenOK = true
-						}
+				if n == 1 && firstQ != lastQ {
+					continue
+				}
+				ci.decRuns++
+				runes := aiVal{kind: "list"}
+				for i := 0; i < n; i++ {
+					e := aiSym(fmt.Sprintf("c%d", i))
+					if (i == 0 && firstQ) || (i == n-1 && lastQ) {
+						e = aiSym("q")
+					}
+					runes.tup = append(runes.tup, e)
+				}
+				var builder []aiVal
+				ai := &absInterp{c: c, fn: ci.dec, env: map[ssa.Value]aiVal{}}
+				ai.env[ci.dec.Params[1]] = aiSym("value")
+				ai.env[ci.dec.Params[2]] = aiSym("q")
+				c.codecHooks(ai, &builder)
+				ai.conv = func(ai *absInterp, cv *ssa.Convert) (aiVal, bool) {
+					x := ai.get(cv.X)
+					_, toSlice := cv.Type().Underlying().(*types.Slice)
+					switch {
+					case toSlice && x.kind == "sym" && x.s == "value":
+						return runes, true // []rune(value)
+					case x.kind == "list":
+						return aiSym("str" + aiRender(x)), true // string(runes[a:b])
+					}
+					return aiVal{}, false
+				}
+				out := ai.run(ci.dec.Blocks[0], nil, 0)
+				ctx := fmt.Sprintf("[a text of %d rune(s), first is the quote: %v, last is the quote: %v]", n, firstQ, lastQ)
+				strip := n >= 2 && firstQ && lastQ
+				want := "value"
+				if strip {
+					inner := aiVal{kind: "list", tup: runes.tup[1 : n-1]}
+					want = "str" + aiRender(inner)
+					if ci.encDoubles {
+						want = "replaceAll(" + want + ",q+q,q)"
 					}
 				}
-				if bo.Op == token.EQL && bo.Y == ssa.Value(ci.dec.Params[2]) {
-					if ld, ok := bo.X.(*ssa.UnOp); ok {
-						if ia, ok := ld.X.(*ssa.IndexAddr); ok && isRunes(ia.X) {
-							if k, isK := constInt(ia.Index); isK && k == 0 {
-								firstOK = true
-							}
-							if sub, ok := ia.Index.(*ssa.BinOp); ok && sub.Op == token.SUB {
-								if k, isK := constInt(sub.Y); isK && k == 1 {
-									if lc, ok := sub.X.(*ssa.Call); ok {
-										if bi, ok := lc.Call.Value.(*ssa.Builtin); ok && bi.Name() == "len" && isRunes(lc.Call.Args[0]) {
-											lastOK = true
-										}
-									}
-								}
-							}
-						}
+				switch {
+				case out.kind == "panic":
+					if ci.decBad == "" {
+						ci.decBad = "DecodeString panics (" + out.why + ") " + ctx + ": decoding is not total"
+					}
+				case out.kind != "return" || len(out.ret) != 1:
+					ci.decWhy = "DecodeString: " + out.why + " " + ctx
+				default:
+					got := aiRender(out.ret[0])
+					if strip && strings.Contains(got, "replaceAll(") {
+						ci.decUndouble = true
+					}
+					if ci.encWhy != "" && strip && strings.HasPrefix(got, "replaceAll(") && strings.HasSuffix(got, ",q+q,q)") {
+						// the encoder's form is undecided: only the stripping is judged here
+						got = strings.TrimSuffix(strings.TrimPrefix(got, "replaceAll("), ",q+q,q)")
+					}
+					if got != want && ci.decBad == "" {
+						ci.decBad = fmt.Sprintf("DecodeString returns %s, the inverse of this state's encoder gives %s %s (strip exactly one quote on each side only when both are present, then un-double iff the encoder doubles)", got, want, ctx)
 					}
 				}
 			}
-			ci.decGuardsOK = lenOK && firstOK && lastOK
-			ci.decGuardWhy = fmt.Sprintf("length>=2 %v, first==quote %v, last(len(runes)-1)==quote %v", lenOK, firstOK, lastOK)
 		}
 	}
 	for _, ci2 := range allCalls(ci.reader) {
@@ -139,34 +174,30 @@ func init() {
 
 func ruleCodecPair(c *Ctx) []*Obligation {
 	o := newObl("CODEC.pair")
-	const Q = "conv<string>($2)"
-	plainDec := "conv<string>(conv<[]rune>($1)[1:(len(conv<[]rune>($1)) - 1)])"
 	for _, nt := range c.quoteStates() {
 		ci := c.codecOf(nt)
 		name := c.relPkg(nt.Obj().Pkg()) + "." + nt.Obj().Name()
 		// encoder
-		wantPlain := []string{"WriteRune($2)", "WriteString($1)", "WriteRune($2)"}
-		wantDbl := []string{"WriteRune($2)", "WriteString(strings.ReplaceAll($1, " + Q + ", (" + Q + " + " + Q + ")))", "WriteRune($2)"}
-		got := strings.Join(ci.encSeq, " ")
 		keyE := name + "#encode"
-		if got == strings.Join(wantPlain, " ") || got == strings.Join(wantDbl, " ") {
-			o.ok(keyE, c.Pos(ci.enc.Pos()), got)
-		} else {
-			o.bad(keyE, c.Pos(ci.enc.Pos()), "EncodeString writes ["+got+"]; it must write the quote, the value (plain or with each quote doubled), the quote")
+		switch {
+		case ci.encWhy != "":
+			o.undecided(keyE, c.Pos(ci.enc.Pos()), ci.encWhy)
+		case ci.encExpr == "q+value+q" || ci.encExpr == "q+replaceAll(value,q,q+q)+q":
+			o.ok(keyE, c.Pos(ci.enc.Pos()), ci.encExpr)
+		default:
+			o.bad(keyE, c.Pos(ci.enc.Pos()), "EncodeString returns "+ci.encExpr+"; it must be the quote, the value (plain or with each quote doubled), the quote")
 		}
 		// decoder
 		keyD := name + "#decode"
-		wantDec := plainDec
-		if ci.encDoubles {
-			wantDec = "strings.ReplaceAll(" + plainDec + ", (" + Q + " + " + Q + "), " + Q + ")"
-		}
 		switch {
-		case !ci.decGuardsOK:
-			o.bad(keyD, c.Pos(ci.dec.Pos()), "the stripping branch of DecodeString is not guarded by: rune length >= 2, first rune == quote, last rune (index len(runes)-1) == quote ("+ci.decGuardWhy+"): decoding fails or strips wrongly on short, unterminated or non-ASCII input")
-		case ci.decExpr != wantDec:
-			o.bad(keyD, c.Pos(ci.dec.Pos()), fmt.Sprintf("DecodeString computes %s; the inverse of this state's encoder is %s (strip one quote on each side, then un-double iff the encoder doubles)", ci.decExpr, wantDec))
+		case ci.encWhy != "" && ci.decBad == "":
+			o.undecided(keyD, c.Pos(ci.dec.Pos()), "the encoder's form is not decided, so its inverse is not known")
+		case ci.decBad != "":
+			o.bad(keyD, c.Pos(ci.dec.Pos()), ci.decBad)
+		case ci.decWhy != "":
+			o.undecided(keyD, c.Pos(ci.dec.Pos()), ci.decWhy)
 		default:
-			o.ok(keyD, c.Pos(ci.dec.Pos()), ci.decExpr)
+			o.ok(keyD, c.Pos(ci.dec.Pos()), fmt.Sprintf("%d abstract run(s): strips one quote on each side exactly when the text has at least two runes and both ends are the quote, then un-doubles: %v", ci.decRuns, ci.decUndouble))
 		}
 		// purity
 		keyP := name + "#codec-pure"
@@ -192,7 +223,9 @@ func ruleCodecReader(c *Ctx) []*Obligation {
 			x = c.runScanExec(ci.reader)
 		}
 		keyA := name + "#reader-matches-encoder"
-		if ci.encDoubles != ci.decUndouble {
+		if ci.encWhy != "" {
+			o.undecided(keyA, c.Pos(ci.enc.Pos()), ci.encWhy)
+		} else if ci.encDoubles != ci.decUndouble {
 			o.bad(keyA, c.Pos(ci.dec.Pos()), fmt.Sprintf("the encoder doubles quotes: %v, the decoder un-doubles: %v", ci.encDoubles, ci.decUndouble))
 		} else {
 			o.ok(keyA, c.Pos(ci.dec.Pos()), fmt.Sprintf("encoder doubles: %v, decoder un-doubles: %v", ci.encDoubles, ci.decUndouble))
